@@ -24,6 +24,8 @@ type layoutEvents struct {
 	OK     bool            // the path returns a nil error / no error result
 	Cons   []Cons
 	Fields map[string]Lin // current integer value of receiver fields at return (by promoted path)
+	Elem   map[Sym]lfElemRef // symbols standing for bytes loaded from a tracked buffer
+	SymName func(Sym) string
 }
 
 // feasibleWith: can the receiver fields take the given values on this path?
@@ -48,6 +50,7 @@ func (le layoutEvents) feasibleWith(assign map[string]int64, bools map[string]bo
 func extractEvents(c *Ctx, fn *ssa.Function, widths map[string]int) ([]layoutEvents, string) {
 	e := newLenflow(c, 6)
 	e.bits = true
+	e.elemLoads = map[Sym]lfElemRef{}
 	e.fieldWidth = widths
 	var out []layoutEvents
 	e.onStore = func(st *lfState, kind, name, val string, pos token.Pos, b *bv) {
@@ -73,6 +76,13 @@ func extractEvents(c *Ctx, fn *ssa.Function, widths map[string]int) ([]layoutEve
 			}
 		}
 		le := layoutEvents{Cond: append([]string{}, st.trail...), Events: append([]lfEvent{}, st.events...), Bools: map[string]bool{}, OK: ok, Cons: append([]Cons{}, st.cons...), Fields: map[string]Lin{}}
+		le.Elem = e.elemLoads
+		le.SymName = func(sy Sym) string {
+			if int(sy) >= 0 && int(sy) < len(e.symNames) {
+				return e.symNames[sy]
+			}
+			return ""
+		}
 		prefix := fmt.Sprintf("%d.", e.recvObj)
 		for k, v := range st.heap {
 			if strings.HasPrefix(k, prefix) {
@@ -147,6 +157,15 @@ func cmdLayout(args []string) int {
 			sort.Strings(ks)
 			for _, k := range ks {
 				fmt.Printf("   %s %s = %s\n", kind, k, m[k])
+			}
+		}
+		for _, ev := range le.Events {
+			if ev.Kind == "cmp" || strings.HasPrefix(ev.Kind, "loop:") {
+				extra := ""
+				if ev.Loop != nil {
+					extra = fmt.Sprintf("  guard=%v", ev.Loop.Guard)
+				}
+				fmt.Printf("   %s %s %s%s\n", ev.Kind, ev.Name, ev.Val, extra)
 			}
 		}
 	}
